@@ -5,6 +5,7 @@ import (
 	"bufio"
 	"bytes"
 	"crypto/sha256"
+	"encoding/base64"
 	"encoding/hex"
 	"encoding/json"
 	"errors"
@@ -101,6 +102,7 @@ func runRef(h History, w *bufio.Writer) {
 	}
 	old := syscall.Umask(0)
 	defer syscall.Umask(old)
+	files := map[string]afero.File{}
 	for i, c := range h.Calls {
 		res := Result{I: i, Op: c.Op}
 		var cerr error
@@ -149,6 +151,82 @@ func runRef(h History, w *bufio.Writer) {
 					cerr = e
 				}
 			}
+		case "open":
+			var f afero.File
+			f, cerr = s.OpenFile(c.Name, c.Flags, os.FileMode(c.Perm))
+			if cerr == nil {
+				files[c.H] = f
+			}
+		case "read", "readat", "seek", "write", "writeat", "writestring", "truncate", "sync", "close", "hstat":
+			f := files[c.H]
+			if f == nil {
+				cerr = errors.New("no handle")
+				break
+			}
+			hdata := []byte{}
+			if c.Data != "" {
+				hdata, _ = base64.StdEncoding.DecodeString(c.Data)
+			}
+			res.Ret = map[string]interface{}{}
+			switch c.Op {
+			case "read":
+				buf := make([]byte, c.N)
+				var n int
+				n, cerr = f.Read(buf)
+				res.Ret["n"] = n
+				if n > 0 {
+					res.Ret["data"] = base64.StdEncoding.EncodeToString(buf[:n])
+				}
+			case "readat":
+				buf := make([]byte, c.N)
+				var n int
+				n, cerr = f.ReadAt(buf, c.Off)
+				res.Ret["n"] = n
+				if n > 0 {
+					res.Ret["data"] = base64.StdEncoding.EncodeToString(buf[:n])
+				}
+			case "seek":
+				var o int64
+				o, cerr = f.Seek(c.Off, c.Whence)
+				res.Ret["off"] = o
+			case "write":
+				var n int
+				n, cerr = f.Write(hdata)
+				res.Ret["n"] = n
+			case "writeat":
+				var n int
+				n, cerr = f.WriteAt(hdata, c.Off)
+				res.Ret["n"] = n
+			case "writestring":
+				var n int
+				n, cerr = f.WriteString(string(hdata))
+				res.Ret["n"] = n
+			case "truncate":
+				cerr = f.Truncate(c.Off)
+			case "sync":
+				cerr = f.Sync()
+			case "close":
+				cerr = f.Close()
+				delete(files, c.H)
+			case "hstat":
+				var fi os.FileInfo
+				fi, cerr = f.Stat()
+				if cerr == nil {
+					res.Ret["info"] = Entry{Path: c.Name, Size: fi.Size(), Mode: uint32(fi.Mode()), Blob: -2}
+				}
+			}
+		case "readfile":
+			var d []byte
+			d, cerr = afero.ReadFile(s, c.Name)
+			e := Entry{Blob: -2}
+			r.content(&e, d, nil)
+			res.Ret = map[string]interface{}{"len": e.Len, "sha": e.Sha}
+		case "stat":
+			var fi os.FileInfo
+			fi, cerr = s.Stat(c.Name)
+			if cerr == nil {
+				res.Ret = map[string]interface{}{"info": Entry{Path: c.Name, Size: fi.Size(), Mode: uint32(fi.Mode()), Blob: -2}}
+			}
 		default:
 			cerr = fmt.Errorf("unsupported in reference: %s", c.Op)
 		}
@@ -157,7 +235,9 @@ func runRef(h History, w *bufio.Writer) {
 		if cerr != nil {
 			res.Err = cerr.Error()
 		}
-		res.Obs = map[string]interface{}{"tree": r.refWalk(s)}
+		if len(files) == 0 {
+			res.Obs = map[string]interface{}{"tree": r.refWalk(s)}
+		}
 		emit(w, res)
 	}
 }
